@@ -134,8 +134,24 @@ func definiteChange(a, b viewState) bool {
 	return false
 }
 
+// consume feeds the model. Only keys under the range the STATEMENT speaks about (m.wk)
+// are taken into account: should go-zero watch a wider range, the extra values show up
+// as stale ones.
 func (m *mirror) consume(items []titem) {
 	for _, it := range items {
+		if it.kind == tEvent && !m.wk.match(it.ev.k) {
+			m.pos++
+			continue
+		}
+		if it.kind != tEvent {
+			snap := map[string]string{}
+			for k, v := range it.snap {
+				if m.wk.match(k) {
+					snap[k] = v
+				}
+			}
+			it.snap = snap
+		}
 		before := m.view()
 		switch it.kind {
 		case tEvent:
